@@ -87,6 +87,18 @@ Proof.
   eexists. split; [reflexivity|]. split; [vm_compute; reflexivity|]. split; vm_compute; reflexivity.
 Qed.
 
+(* pe_designated on the same table: SIGMA(1,1) is fixed (row -1000000006) and dropped, the others are renamed *)
+Example ex_pe_designated :
+  exists t cols rows sd,
+    design_of t = None /\ ext_data_frame (tb_frame t) = ROk ex_g /\
+    parse_parameter_estimates [t] [] [(s_THETA ++ [40;49;41], [80;79;80;95;67;76])] =
+    ROk ([([80;79;80;95;67;76], CNum (1834 # 390625)); (s_OMEGA ++ [40;49;44;49;41], CNum (-292247 # 10000000))], cols, rows, sd).
+Proof.
+  exists (mkTable (Some (mkTitle 1 false None))
+            (match read_frame (render_body ex_ext) with ROk f => f | _ => mkFrame [] [] end)).
+  eexists. eexists. eexists. split; [reflexivity|]. split; vm_compute; reflexivity.
+Qed.
+
 (* ---- whole files: hypotheses of parse_render / parse_title_render / obj_renaming_only ---- *)
 Definition ex_title (k : list nat) (design goal : option text) : wtitle :=
   mkWTitle false (dg k) [70;105;114;115;116;32;79;114;100;101;114] design goal (map dg [[1];[0];[0];[0];[0];[0]])%nat.
